@@ -50,10 +50,12 @@ class Other:
       The name or instance of the other segment of the connection.
       If circular, then **segment**.
     """
-    segment_name = str(segment)
-    if segment_name == str(self.from_segment):
+    def name_of(s):
+      return s.name if isinstance(s, gfapy.Line) else str(s)
+    segment_name = name_of(segment)
+    if segment_name == name_of(self.from_segment):
       return self.to_segment
-    elif segment_name == str(self.to_segment):
+    elif segment_name == name_of(self.to_segment):
       return self.from_segment
     elif tolerant:
       return None
